@@ -3,17 +3,82 @@
 import json, os
 HERE = os.path.dirname(os.path.dirname(os.path.abspath(__file__)))
 
+# category: "proof" only where pinned theorems exist in coq/props/<id>.v; the rest is claimed at the level
+# the finished part supports and upgraded when its theorems land.
+def C(category, text, design_ref, note, technique):
+    return dict(category=category, text=text, design_ref=design_ref, note=note, technique=technique)
+
+GLUE = ("Trusted: Coq kernel, extraction (ExtrOcamlBasic only), ocaml/driver.ml, harness/src/*.rs, tools/*.py; crypto primitives "
+        "are parameters of the model, at run time both sides use the blake2/crc32fast/ed25519-dalek crates; dependency crates are "
+        "modelled, not verified. ")
+
 CHECKS = {
- "C11": dict(
-   text="Machine-checked theorems (coq/props/C11.v: codec_law for all eight wire types — encode succeeds, writes exactly "
-        "the announced size, decode(encode x ++ r) = (x, r), every strict prefix decodes to an error, never a panic) over "
-        "the Gallina model of the codecs; the crate's encoders/decoders are tied to the model on every run by differential "
-        "execution over all varint boundaries, byte strings 0..300, node lists 0..8 and every strict prefix.",
-   design_ref="DESIGN.md 6.11",
-   note="Trusted: Coq kernel, extraction (ExtrOcamlBasic only), ocaml/driver.ml, harness, tools/c11.py. The crate's "
-        "compact-encoding dependency is exercised, not verified. Hostile vector length prefixes (Vec::with_capacity) are "
-        "outside C11 (only prefixes of valid encodings are quantified).",
-   technique="Coq proof (round-trip/monotonicity lemmas) + correspondence check"),
+ "C01": C("exploration",
+   "The executable Gallina model of the whole crate (coq/*.v) is run against the crate on every history (observations and storage "
+   "journals compared) and the crate is judged against the append-only list specification: corpus, bounded-exhaustive histories over a "
+   "9-letter alphabet, seeded random histories with reopen after arbitrary prefixes, and a core crossing 8192 and 32768 blocks. "
+   "Refinement theorems (Refine.v) are in progress; until they are pinned the claim is exploration.",
+   "DESIGN.md 6.1", GLUE, "correspondence check against the Coq model + list-model oracle"),
+ "C02": C("fault_enumeration",
+   "Every crash point of every generated history: all prefixes of the journal of mutating storage operations, plus singleton and "
+   "co-singleton subsets of each unordered flush group; each crash state is recovered on the crate and on the Coq model, judged by the "
+   "before-or-after oracle and continued (append/clear, reopen, read everything).",
+   "DESIGN.md 6.2", GLUE, "crash-point enumeration on implementation and Coq model"),
+ "C03": C("exploration",
+   "Replication worlds (writer growth, clears, replica reopen, full and partial upgrades, block/hash/seek requests built from the "
+   "replica's own missing-node query) run on crate and model; oracle: honest proof accepted, replica blocks byte-identical, lengths.",
+   "DESIGN.md 6.3", GLUE, "correspondence check + replication oracle"),
+ "C04": C("exploration",
+   "Every single-field alteration of honest proofs plus systematic forgeries applied to copies of reachable replica states on crate "
+   "and model; oracle: refusal leaves all observations and all four files unchanged, acceptance leaves only writer data.",
+   "DESIGN.md 6.4", GLUE, "alteration enumeration + correspondence"),
+ "C05": C("exploration",
+   "Every node in the tree store, in oplog entries and in served proofs, header root hash and every stored/served signature compared "
+   "with a reference computed by structural recursion from the blocks (independent Python implementation of the v10 scheme).",
+   "DESIGN.md 6.5", GLUE, "reference-tree oracle + correspondence"),
+ "C06": C("exploration",
+   "Independent JS-layout reader applied to the raw files at every operation boundary; synthetic JS-valid oplogs (either slot, all "
+   "bit states, entries with partial flags, trailing garbage) opened by the crate; five-step interop scenario vs certified hashes.",
+   "DESIGN.md 6.6", GLUE, "independent reader/writer oracle + golden hashes + correspondence"),
+ "C07": C("fault_enumeration",
+   "As C02, plus every proper byte prefix of the write in progress (all prefixes for writes up to 64 bytes; framing boundaries, sector "
+   "boundaries and seeded cuts for longer ones).", "DESIGN.md 6.7", GLUE, "torn-write enumeration on implementation and Coq model"),
+ "C08": C("exploration",
+   "has() on every index below the length and on page boundaries, contiguous length against its definition, for a writer crossing "
+   "8192/32768 blocks (65536 in the thorough tier) with page-straddling clears, a replica holding blocks pages apart, reopen and a "
+   "crash inside a flush.", "DESIGN.md 6.8", GLUE, "exhaustive has() sweep + correspondence"),
+ "C09": C("exploration",
+   "Boundary request tuples on six core shapes, structurally arbitrary proofs and the C04 alteration set, under catch_unwind and a "
+   "watchdog in a build with overflow checks; the model has explicit Panic/OutOfFuel outcomes at every arithmetic, index and loop site "
+   "and must agree.", "DESIGN.md 6.9", GLUE, "hostile-input enumeration + correspondence"),
+ "C10": C("fault_enumeration",
+   "One injected I/O error at every storage operation (reads, length queries, writes, deletes, truncates; during open too) of every "
+   "history: the call must answer an error, reopening must show before-or-after with everything earlier intact (also on the model).",
+   "DESIGN.md 6.10", GLUE, "fault enumeration"),
+ "C11": C("proof",
+   "Machine-checked theorems (coq/props/C11.v: codec_law for all eight wire types — encode succeeds, writes exactly "
+   "the announced size, decode(encode x ++ r) = (x, r), every strict prefix decodes to an error, never a panic) over "
+   "the Gallina model of the codecs; the crate's encoders/decoders are tied to the model on every run by differential "
+   "execution over all varint boundaries, byte strings 0..300, node lists 0..8 and every strict prefix.",
+   "DESIGN.md 6.11",
+   GLUE + "Hostile vector length prefixes (Vec::with_capacity) are outside C11 (only prefixes of valid encodings are quantified).",
+   "Coq proof (round-trip/monotonicity lemmas) + correspondence check"),
+ "C12": C("fault_enumeration",
+   "Histories with make_read_only at a random position: raw bytes of all four files searched for every 16-byte window of the secret, "
+   "second call / append / reopen / open-with-key checks with empty journals, and all crash points inside make_read_only.",
+   "DESIGN.md 6.12", GLUE, "crash enumeration + byte search + correspondence"),
+ "C13": C("exploration",
+   "Events drained after every call from 1-3 subscribers on writers and replicas (accepted and refused proofs, gets of held/missing "
+   "indices, empty batches) compared with the event specification and with the model.",
+   "DESIGN.md 6.13", GLUE, "event oracle + correspondence"),
+ "C14": C("exploration",
+   "The same histories (writer + replication + reopen) on {instrumented, random-access-memory, random-access-disk} x {no cache, default, "
+   "150-byte cache, cache feature not compiled}: observations and file bytes compared with the baseline and the model.",
+   "DESIGN.md 6.14", GLUE, "configuration sweep + correspondence"),
+ "C15": C("exploration",
+   "The real SharedCore under a deterministic scheduler with a preemption point at every storage operation and lock acquisition "
+   "(2-4 tasks x 1-4 calls), judged by a linearizability checker; the method shapes of shared_core.rs are re-derived on every run.",
+   "DESIGN.md 6.15", GLUE, "schedule exploration + linearizability checker"),
 }
 NOT_YET = {}
 
@@ -31,7 +96,7 @@ def main():
                 evidence_file="/verif/evidence/%s.json" % pid,
                 replay_cmd_template="./check %s replay {path}" % pid,
                 engine="coq+correspondence",
-                level_claimed=dict(category="proof", text=c["text"], design_ref=c["design_ref"]),
+                level_claimed=dict(category=c["category"], text=c["text"], design_ref=c["design_ref"]),
                 level_note=c["note"],
                 technique=c["technique"]))
         else:
